@@ -15,7 +15,8 @@ namespace mon
    {
       const char* b;
       const char* e;
-      int combo = 0;        // plain config: 0..3 = (apply_mode action|nothing) x (rewind optional|required)
+      int combo = 0;        // plain config: 0..3 = (apply_mode action|nothing) x (rewind optional|required); buf config: input class
+      const char* path = nullptr;   // buf config: file holding the same bytes (file / stream based classes)
       int sched = 0;        // buffer config: reader schedule
       std::size_t maximum = 0;
    };
@@ -38,6 +39,7 @@ namespace mon
       unsigned salt;
       unsigned features;      // F_* below
       void ( *run )( const runreq&, runres& );
+      long ( *analyze )();        // analyze< G >( -1 ) in the "ana" configuration, else null
    };
 
    enum gfeat : unsigned { GF_EXC = 1, GF_ACT = 2, GF_STATE = 4, GF_LAZY_UNSAFE = 8, GF_DISCARD = 16, GF_CATCH_ALL = 32, GF_TREE = 64, GF_PRED_DUP = 128 };
@@ -52,6 +54,44 @@ namespace mon
       bool plain;
       bool tree = false;
       int selvariant = 0;
+      bool ana = false;
+      bool buf = false;
+      int bufset = 0;           // 0: memory eager/lazy + buffer Chunk 1 and 3; 1: buffer Chunk 64, stream and file based inputs
+   };
+
+   // buf configuration: observation record of one run (raw action log with positions, result, error text)
+   struct bact { int vid; int kind; std::size_t byte, size, line, column; };
+   void on_buf_action( int vid, int kind, std::size_t byte, std::size_t size, std::size_t line, std::size_t column );
+   bool on_buf_veto( int vid, std::size_t byte, std::size_t size );
+
+   // reader with a seeded schedule of short reads over a byte string
+   struct sched_reader
+   {
+      const char* data;
+      std::size_t size;
+      std::size_t pos = 0;
+      int mode;
+      unsigned calls = 0;
+      std::uint64_t rs;
+      sched_reader( const char* d, std::size_t n, int m ) : data( d ), size( n ), mode( m ), rs( 88172645463325252ull + std::uint64_t( m ) * 0x9E3779B97F4A7C15ull ) {}
+      std::size_t operator()( char* buf, const std::size_t len )
+      {
+         std::size_t want = len;
+         switch( mode ) {
+            case 0: break;                                             // exactly the request
+            case 1: want = 1; break;                                   // always one byte
+            case 2: want = ( calls % 2 ) ? len : 1; break;             // alternating 1 / n
+            case 3: want = 1 + ( calls * 7 % 3 ); break;               // 1, 2, 3, ...
+            default: rs ^= rs << 13; rs ^= rs >> 7; rs ^= rs << 17; want = 1 + std::size_t( rs % ( len ? len : 1 ) ); break;   // seeded random 1..n
+         }
+         ++calls;
+         VERIF_UNPOISON( buf, len );   // the monitor poisons what has not been delivered yet; the reader may of course write there
+         std::size_t n = want < len ? want : len;
+         if( n > size - pos ) n = size - pos;
+         for( std::size_t i = 0; i < n; ++i ) buf[ i ] = data[ pos + i ];
+         pos += n;
+         return n;
+      }
    };
 
    void set_registry( const reginfo* regs, std::size_t n, const char* const* custom_messages );
